@@ -472,6 +472,99 @@ theorem C12_scheduler_once_per_epoch (c : Cfg) (R : Req) (stop₀ : Bool) (hnb :
   rw [this, countP_isSched, h1]
   split <;> rfl
 
+/-! ## From the caller's arguments to the run; consecutive runs on one object -/
+
+/-- `⌈(nb·B)/B⌉ = nb` -/
+theorem ceil_mul_self (nb B : Nat) (hB : 1 ≤ B) : (nb * B + B - 1) / B = nb := by
+  apply Nat.div_eq_of_lt_le
+  · omega
+  · rw [Nat.succ_mul]; omega
+
+/-- **C12.8** The `callbacks=` argument may be any container of callbacks — `None`, list, tuple,
+`CallbackList` instance, one-shot iterator; empty or not —: `fit` dispatches to exactly the callbacks the
+caller listed, in the listed order (none for `None`/empty), whatever the container type; hence every
+event reaches each of them, in that order, before the next event. -/
+theorem C12_callbacks_container (a : Args) (R : Req) (stop₀ : Bool) (nb : Nat) :
+    wrapCallbacks a.callbacks = a.callbacks.elems ∧
+    calls (fit (a.cfg nb) R stop₀).1 =
+      (events (fit (a.cfg nb) R stop₀).1).flatMap (fun ev => a.callbacks.elems.map (fun i => (i, ev))) := by
+  have h : wrapCallbacks a.callbacks = a.callbacks.elems := by
+    cases a.callbacks with
+    | none => rfl
+    | iter l => rfl
+    | list l => cases l <;> rfl
+    | tuple l => cases l <;> rfl
+    | cbList l => cases l <;> rfl
+  refine ⟨h, ?_⟩
+  have := C12_dispatch_order (a.cfg nb) R stop₀
+  simpa [Args.cfg, h] using this
+
+/-- **C12.9** The number of batch-start/batch-end pairs per (uninterrupted) epoch is `⌈N / pos_batch_size⌉`
+whatever `neg_batch_size` is (`None`, smaller, equal, larger than `pos_batch_size`) and with or without
+bases: the zipped iterator is never cut short by the negative batches; at least one batch when `N ≥ 1`. -/
+theorem C12_batches_per_epoch (N posB : Nat) (negB : Option Nat) (hasBases : Bool) (hB : 1 ≤ posB) :
+    batchesPerEpoch N posB negB hasBases = .ok ((N + posB - 1) / posB) ∧
+    (1 ≤ N → 1 ≤ (N + posB - 1) / posB) := by
+  constructor
+  · have hne : posB ≠ 0 := by omega
+    have hneg : 1 ≤ Batching.effNegB negB posB := by
+      cases negB with
+      | none => exact hB
+      | some k => cases k with
+        | zero => exact hB
+        | succ k => exact Nat.succ_le_succ (Nat.zero_le k)
+    unfold batchesPerEpoch Batching.numBatches
+    rw [if_neg hne]
+    simp only [Batching.batchStarts, List.length_map, List.length_range]
+    by_cases hm : (!hasBases && Batching.effNegB negB posB == posB) = true
+    · rw [if_pos hm]
+      have he : Batching.effNegB negB posB = posB := by
+        simp only [Bool.and_eq_true, beq_iff_eq] at hm
+        exact hm.2
+      rw [he]
+      cases hasBases <;> simp
+    · rw [if_neg hm, ceil_mul_self _ _ hneg]
+      cases hasBases <;> simp
+  · intro hN
+    apply (Nat.le_div_iff_mul_le (by omega)).mpr
+    omega
+
+/-- **C12.10** `fit` called with the caller's arguments (`pos_batch_size ≥ 1`) is the state machine with
+`⌈N/pos_batch_size⌉` batches per epoch and the listed callbacks — all protocol theorems above apply to it. -/
+theorem C12_fit_args (a : Args) (R : Req) (stop₀ : Bool) (hB : 1 ≤ a.posB) :
+    fitArgs a R stop₀ = .ok (fit { start := a.start, epochs := a.epochs, numBatches := (a.N + a.posB - 1) / a.posB,
+                                   cbs := a.callbacks.elems, timer := a.time, hasSched := a.hasSched } R stop₀) := by
+  unfold fitArgs
+  cases stop₀
+  · simp only [Bool.false_eq_true, if_false]
+    rw [(C12_batches_per_epoch a.N a.posB a.negB a.hasBases hB).1]
+    simp only [Args.cfg, (C12_callbacks_container a R false 0).1]
+  · simp only [if_true, fit_stopped]
+
+/-- **C12.4c** The request persists across calls: on an object whose flag is set, every further `fit` call
+(whatever its arguments and callbacks) is a no-op and leaves the flag set, until the caller clears the flag. -/
+theorem C12_session_stopped (runs : List Run) (h : ∀ r ∈ runs, r.pre = none) :
+    session runs true =
+      .ok (runs.map fun _ => ([], { stop := true, notified := false, ver := 0, sched := 0 })) := by
+  induction runs with
+  | nil => rfl
+  | cons r rest ih =>
+    have hr : r.pre = none := h r (List.mem_cons_self)
+    have ih' := ih (fun x hx => h x (List.mem_cons_of_mem _ hx))
+    simp only [session, hr, fitArgs, if_true, fit_stopped, ih', List.map_cons]
+
+/-- a session: the first call is stopped by callback 0 at the end of its first epoch, the second call (no
+reset) is silent, the third (after `stop_training = False`) runs again — with a tuple of callbacks and
+`neg_batch_size > pos_batch_size` (10 rows, batches of 3 → 4 batches per epoch). -/
+example :
+    let a : Args := { start := 1, epochs := 2, N := 10, posB := 3, negB := some 5, hasBases := false,
+                      callbacks := .tuple [0, 1], time := false, hasSched := false }
+    let R1 : Req := { cb := fun i ev => i == 0 && ev == Event.epochEnd 1, mid := fun _ _ => false }
+    let R0 : Req := { cb := fun _ _ => false, mid := fun _ _ => false }
+    (session [⟨none, a, R1⟩, ⟨none, a, R0⟩, ⟨some false, { a with epochs := 1 }, R0⟩] false).toOption.map
+        (fun outs => outs.map (fun o => ((events o.1).length, o.2.stop, o.2.ver))) =
+      some [(12, true, 4), (0, true, 0), (12, false, 4)] := by decide
+
 /-! ## Non-vacuity: a concrete run -/
 
 /-- two epochs (3, 4) of two batches, two callbacks; callback 1 requests a stop at the end of batch (3,1):
